@@ -800,6 +800,45 @@ where
             }
             run_with_body(req, kind, cfg, prov, &v)
         }
+        5 => {
+            // a container with a history: configured with a few more entries than wanted, used for a validation of this very
+            // request, then edited down with remove_* to the wanted lists, then used for the validation that counts. It is
+            // equal to a freshly built one, so it must decide like one.
+            let mut v = VecSignedHeaderRequirements::default();
+            v.add_always_present("X-Verif-Former-A");
+            v.add_if_in_request("X-Verif-Former-B");
+            v.add_prefix("X-Verif-Former-");
+            for (k, h) in r.always.iter().enumerate() {
+                v.add_always_present(h);
+                if k == 0 {
+                    v.add_always_present("x-verif-former-c");
+                }
+            }
+            for (k, h) in r.if_req.iter().enumerate() {
+                v.add_if_in_request(h);
+                if k == 0 {
+                    v.add_if_in_request("x-verif-former-d");
+                }
+            }
+            for (k, h) in r.prefixes.iter().enumerate() {
+                v.add_prefix(h);
+                if k == 0 {
+                    v.add_prefix("x-verif-former2-");
+                }
+            }
+            {
+                let mut warm = Prov::new(Script::derive("warm-up"));
+                warm.contract_panics = false;
+                let _ = run_with_body(req.clone(), kind, cfg, &mut warm, &v);
+            }
+            v.remove_always_present("x-verif-former-a");
+            v.remove_always_present("X-VERIF-FORMER-C");
+            v.remove_if_in_request("x-verif-former-b");
+            v.remove_if_in_request("X-Verif-Former-D");
+            v.remove_prefix("x-verif-former-");
+            v.remove_prefix("X-VERIF-FORMER2-");
+            run_with_body(req, kind, cfg, prov, &v)
+        }
         _ => {
             let (a, i, p) = (cows(&r.always), cows(&r.if_req), cows(&r.prefixes));
             let s = SliceSignedHeaderRequirements::new(&a, &i, &p);
